@@ -271,4 +271,344 @@ theorem dispatch_guard_exact :
     dispatchGuard = ["ready.Len() > 0 && ongoing < s.concurrency"] := by
   decide
 
+/-! ### Structure of the template text (C04 C05 C06 C07 C10 C11 C18)
+
+The generated code of a directive is `func() (err error) { <prologue>; <root
+template> }()`.  Several safety mechanisms exist only as template TEXT; the
+extractor flattens the templates (see `Extracted.TmplFn`, `Extracted.Mark`) and
+the obligations below fail when an edit removes one of them.  Each mechanism is
+stated twice: as a property (so that the failure names the mechanism), and as
+the exact list found today (so that a new func literal, `return` or construct
+shows up for review). -/
+
+/-- A mark lying under no template branch. -/
+def m (n : String) : Mark := { guards := [], name := n }
+/-- A mark under the template branches `g`. -/
+def mg (g : List String) (n : String) : Mark := { guards := g, name := n }
+
+def isUnknownMark (x : Mark) : Bool := hasPrefix x.name "unknown"
+/-- The marks before the first one named `a`. -/
+def before (a : String) (ms : List Mark) : List Mark := ms.takeWhile (fun x => x.name != a)
+/-- The marks after the first one named `a`. -/
+def after (a : String) (ms : List Mark) : List Mark := (ms.dropWhile (fun x => x.name != a)).drop 1
+/-- The marks after the first `a` and before the next `b`. -/
+def between (a b : String) (ms : List Mark) : List Mark := before b (after a ms)
+def count (a : String) (ms : List Mark) : Nat := (ms.filter (fun x => x.name == a)).length
+
+/-- The marks of a root template. -/
+def rootOf (f : String) : List Mark :=
+  match rootOrder.find? (fun e => e.1 == f) with
+  | some e => e.2
+  | none => []
+
+/-- The marks of the job closure `i` of template `f`. -/
+def bodyOf (f : String) (i : Nat) : List Mark :=
+  match taskBodyOrder.find? (fun e => e.1 == f && e.2.1 == i) with
+  | some e => e.2.2
+  | none => []
+
+/-- **C04 C05 C06 C07 C10 C11 C18.** The structural scanner recognised
+everything it looked at: every template parsed, the flattened text of every
+template tokenised and was balanced in brackets (each template branch balanced
+in braces on its own), the root templates call `NewScheduler`, slice/map have
+their `for` loop, element closure and End job. -/
+theorem tmpl_struct_recognised : tmplStructUnknown = [] := by
+  decide
+
+/-! #### M1 - every job closure recovers (C04) -/
+
+/-- **C04.** Every job closure (`func(ctx context.Context) (err error)`) has,
+directly in its body, a deferred func literal calling `recover()`, and neither
+that literal nor its `recover()` lies in a template branch the closure does not
+lie in: a panic in user code always becomes an error of the job. -/
+theorem job_bodies_recover :
+    tmplFuncLits.all (fun j => !j.isJobBody ||
+      tmplFuncLits.any (fun d =>
+        d.file == j.file && d.parent == some j.index && d.depth == j.depth + 1 &&
+        d.isDeferred && d.hasRecover && !d.conditional)) = true := by
+  decide
+
+/-- **C04.** The job closures are the ones whose statement order is extracted
+(`taskBodyOrder`), one for one. -/
+theorem job_bodies_listed :
+    taskBodyOrder.map (fun e => (e.1, e.2.1)) =
+      (tmplFuncLits.filter (·.isJobBody)).map (fun j => (j.file, j.index)) := by
+  decide
+
+/-- **C04.** In every job closure the recover defer is registered,
+unconditionally, before the user function is called (a defer registered after
+the call would not see its panic); the closure does call the user function;
+and nothing in it went unrecognised. -/
+theorem job_bodies_recover_before_call :
+    taskBodyOrder.all (fun e =>
+      (before "call" e.2.2).contains (m "defer:recover") &&
+      e.2.2.any (fun x => x.name == "call") &&
+      !e.2.2.any isUnknownMark) = true := by
+  decide
+
+/-- **C04 C11 C18.** Nothing protective is registered after the user call: no
+defer (recover, TaskDone, `ran.Store`) and no predicate gate follows a `call`. -/
+theorem nothing_protective_after_call :
+    taskBodyOrder.all (fun e =>
+      (after "call" e.2.2).all (fun x =>
+        !hasPrefix x.name "defer:" && x.name != "gate" && x.name != "ranStore")) = true := by
+  decide
+
+def deferLit (file : String) (index depth : Nat) (parent : Option Nat) : TmplFn :=
+  { file, index, depth, parent, guards := [], isDeferred := true, hasRecover := false,
+    isJobBody := false, conditional := false }
+def recoverLit (file : String) (index depth : Nat) (parent : Option Nat) : TmplFn :=
+  { file, index, depth, parent, guards := [], isDeferred := true, hasRecover := true,
+    isJobBody := false, conditional := false }
+def jobLit (file : String) (index : Nat) (guards : List String) : TmplFn :=
+  { file, index, depth := 0, parent := none, guards, isDeferred := false, hasRecover := false,
+    isJobBody := true, conditional := !guards.isEmpty }
+def plainLit (file : String) (index depth : Nat) (parent : Option Nat) : TmplFn :=
+  { file, index, depth, parent, guards := [], isDeferred := false, hasRecover := false,
+    isJobBody := false, conditional := false }
+
+/-- **C04 C18.** The func literals of the templates, exactly: in the root
+templates the Done defer and the TaskSkipped sweep; in each task/predicate
+template the job closure with its defers; in slice/map the element closure and
+the End job (under `with .SliceEndFn` / `with .MapEndFn`), each with its recover
+defer.  A new literal (a new goroutine body, a new defer) shows up here. -/
+theorem func_lits_known :
+    tmplFuncLits =
+      [ deferLit "flow/flow.go.tmpl" 0 0 none,
+        deferLit "flow/flow.go.tmpl" 1 0 none,
+        jobLit "flow/predicate.go.tmpl" 0 [],
+        recoverLit "flow/predicate.go.tmpl" 1 1 (some 0),
+        jobLit "flow/task.go.tmpl" 0 [],
+        deferLit "flow/task.go.tmpl" 1 1 (some 0),
+        recoverLit "flow/task.go.tmpl" 2 1 (some 0),
+        plainLit "modifier/concurrency.go.tmpl" 0 0 none,
+        deferLit "modifier/flow.go.tmpl" 0 0 none,
+        jobLit "modifier/flow_task.go.tmpl" 0 [],
+        recoverLit "modifier/flow_task.go.tmpl" 1 1 (some 0),
+        jobLit "parallel/map.go.tmpl" 0 [],
+        recoverLit "parallel/map.go.tmpl" 1 1 (some 0),
+        jobLit "parallel/map.go.tmpl" 2 ["with .MapEndFn"],
+        recoverLit "parallel/map.go.tmpl" 3 1 (some 2),
+        deferLit "parallel/parallel.go.tmpl" 0 0 none,
+        deferLit "parallel/parallel.go.tmpl" 1 0 none,
+        jobLit "parallel/slice.go.tmpl" 0 [],
+        recoverLit "parallel/slice.go.tmpl" 1 1 (some 0),
+        jobLit "parallel/slice.go.tmpl" 2 ["with .SliceEndFn"],
+        recoverLit "parallel/slice.go.tmpl" 3 1 (some 2),
+        jobLit "parallel/task.go.tmpl" 0 [],
+        deferLit "parallel/task.go.tmpl" 1 1 (some 0),
+        recoverLit "parallel/task.go.tmpl" 2 1 (some 0) ] := by
+  decide
+
+/-- **C04 C11 C18.** The statement order of every job closure, exactly.  (In
+`flow/task.go.tmpl`, TaskPanicRecovered lives inside the recover defer and is
+therefore not a mark of the body.) -/
+theorem task_body_order_known :
+    taskBodyOrder =
+      [ ("flow/predicate.go.tmpl", 0, [m "defer:recover", m "call", m "return"]),
+        ("flow/task.go.tmpl", 0,
+          [ m "defer:TaskDone", m "defer:recover", mg ["if .Predicate"] "gate", m "defer:ranStore",
+            m "call",
+            mg ["if .Function.HasError", "if .FallbackWith"] "fallback",
+            mg ["if .Function.HasError", "unless .FallbackWith"] "TaskError",
+            mg ["if .Function.HasError", "unless .FallbackWith"] "return",
+            mg ["if .Function.HasError"] "TaskSuccess",
+            mg ["unless .Function.HasError"] "TaskSuccess",
+            m "return" ]),
+        ("modifier/flow_task.go.tmpl", 0, [m "defer:recover", m "call", m "return"]),
+        ("parallel/map.go.tmpl", 0, [m "defer:recover", m "call", m "return"]),
+        ("parallel/map.go.tmpl", 2, [m "defer:recover", m "call", m "return"]),
+        ("parallel/slice.go.tmpl", 0,
+          [ m "defer:recover", mg ["if .HasIndexParameter"] "call",
+            mg ["unless .HasIndexParameter"] "call", m "return" ]),
+        ("parallel/slice.go.tmpl", 2, [m "defer:recover", m "call", m "return"]),
+        ("parallel/task.go.tmpl", 0,
+          [ m "defer:TaskDone", m "defer:recover", m "defer:ranStore", m "call",
+            mg ["if .Function.HasError"] "TaskError", mg ["if .Function.HasError"] "return",
+            m "TaskSuccess", m "return" ]) ] := by
+  decide
+
+/-! #### M2 - nothing returns between NewScheduler and Wait (C05 C06) -/
+
+/-- **C05 C06.** In every root template the scheduler is created once and
+waited for once, both unconditionally, and between `NewScheduler(` and
+`sched.Wait(` no statement of the outer closure returns (a `return` there would
+skip `Wait` and leak the scheduler's goroutines); `return`s inside job closures
+and deferred literals are not marks of the root.  Nothing in between went
+unrecognised. -/
+theorem no_return_between_new_and_wait :
+    rootOrder.all (fun e =>
+      count "NewScheduler" e.2 == 1 && count "Wait" e.2 == 1 &&
+      e.2.contains (m "NewScheduler") && e.2.contains (m "Wait") &&
+      (after "NewScheduler" e.2).contains (m "Wait") &&
+      (between "NewScheduler" "Wait" e.2).all (fun x => x.name != "return" && !isUnknownMark x)) = true := by
+  decide
+
+/-- Templates whose text returns outside every func literal: the root
+templates (after `Wait`, see `root_order_known`) and two function DECLARATIONS of
+modifier mode, which are not part of any directive's closure. -/
+def returnsAllowedIn : List String :=
+  [ "flow/flow.go.tmpl", "parallel/parallel.go.tmpl", "modifier/flow.go.tmpl",
+    "modifier/concurrency.go.tmpl", "modifier/func.go.tmpl{modifierReturnValue}" ]
+
+/-- **C05 C06.** No sub-template (task, predicate, slice, map, the shared
+ones: everything included between `NewScheduler` and `Wait`) returns outside a
+func literal. -/
+theorem no_return_in_subtemplates :
+    topLevelReturns.all (fun r => returnsAllowedIn.contains r.1) = true := by
+  decide
+
+/-- **C05 C06.** The `return`s outside func literals, exactly. -/
+theorem top_level_returns_known :
+    topLevelReturns =
+      [ ("flow/flow.go.tmpl", "return err"),
+        ("flow/flow.go.tmpl", "return nil"),
+        ("modifier/concurrency.go.tmpl", "return func() int { return c }"),
+        ("modifier/flow.go.tmpl", "return err"),
+        ("modifier/flow.go.tmpl", "return nil"),
+        ("modifier/func.go.tmpl{modifierReturnValue}", "return {{ template \"modifierReturnType\" . }} { return {{ range . }} {{ .Name }} {{ if not .LastIdx }}, {{ end }} {{ end }} }"),
+        ("modifier/func.go.tmpl{modifierReturnValue}", "return {{ template \"modifierReturnType\" . }} { return {{ range . }} {{ .Name }} {{ if not .LastIdx }}, {{ end }} {{ end }} }"),
+        ("parallel/parallel.go.tmpl", "return err"),
+        ("parallel/parallel.go.tmpl", "return nil") ] := by
+  decide
+
+/-- **C05 C06 C07 C18.** The root templates, exactly: emitter, Done defer,
+scheduler, task type, TaskSkipped sweep, the sub-templates (one per function /
+task, inside a `range`), `Wait`, then the error path (`Error`, `return`), the
+Results copy (flow only), `Success`, `return`.  Modifier mode has no
+TaskSkipped sweep (it emits no task events). -/
+theorem root_order_known :
+    rootOrder =
+      [ ("flow/flow.go.tmpl",
+          [ m "include:buildEmitter", m "defer:Done", m "NewScheduler", m "include:task",
+            m "defer:Skipped", mg ["range $flow.TopoFuncs"] "include:func.go.tmpl",
+            m "Wait", m "Error", m "return", mg ["range .Outputs"] "ResultsCopy",
+            m "Success", m "return" ]),
+        ("modifier/flow.go.tmpl",
+          [ mg ["outside with .Flow", "with .FuncArgs"] "include:args",
+            mg ["outside with .Flow"] "include:modifierProviders",
+            m "include:buildEmitter", m "defer:Done", m "NewScheduler", m "include:task",
+            mg ["range .TopoFuncs"] "include:flow_func.go.tmpl",
+            m "Wait", m "Error", m "return", mg ["range .Outputs"] "ResultsCopy",
+            m "Success", m "return" ]),
+        ("parallel/parallel.go.tmpl",
+          [ m "include:buildEmitter", m "defer:Done", m "NewScheduler", m "include:task",
+            m "defer:Skipped",
+            mg ["range $parallel.Tasks"] "include:task.go.tmpl",
+            mg ["range $parallel.SliceTasks"] "include:slice.go.tmpl",
+            mg ["range $parallel.MapTasks"] "include:map.go.tmpl",
+            m "Wait", m "Error", m "return", m "Success", m "return" ]) ] := by
+  decide
+
+/-! #### M3 - the predicate gate precedes the user call (C11) -/
+
+/-- **C11.** In the job closure of `flow/task.go.tmpl` the predicate gate
+(`if !p<hash> { return nil }`, present exactly when the task has a predicate)
+comes before the call of the user function, `ran.Store(true)` is registered
+between the gate and the call (so a task whose predicate is false has not "run"
+and is reported TaskSkipped), and neither the call nor `ran.Store` precedes the
+gate. -/
+theorem predicate_gate_before_call :
+    (count "gate" (bodyOf "flow/task.go.tmpl" 0) == 1 &&
+     (bodyOf "flow/task.go.tmpl" 0).contains (mg ["if .Predicate"] "gate") &&
+     count "call" (bodyOf "flow/task.go.tmpl" 0) == 1 &&
+     (after "gate" (bodyOf "flow/task.go.tmpl" 0)).contains (m "call") &&
+     (between "gate" "call" (bodyOf "flow/task.go.tmpl" 0)).any
+       (fun x => x == m "defer:ranStore" || x == m "ranStore") &&
+     (before "gate" (bodyOf "flow/task.go.tmpl" 0)).all
+       (fun x => x.name != "call" && x.name != "defer:ranStore" && x.name != "ranStore")) = true := by
+  decide
+
+/-- **C11.** Every task closure that reports task events marks itself as run
+(`ran.Store(true)`) before calling the user function, unconditionally. -/
+theorem ran_store_before_call :
+    [("flow/task.go.tmpl", 0), ("parallel/task.go.tmpl", 0)].all (fun k =>
+      (before "call" (bodyOf k.1 k.2)).any
+        (fun x => x == m "defer:ranStore" || x == m "ranStore")) = true := by
+  decide
+
+/-! #### M4 - Results are copied only after a successful Wait (C07) -/
+
+/-- **C07.** In the flow root templates, what follows `sched.Wait` is exactly:
+the error event, `return` (the error path leaves before anything is copied),
+the Results copies (`*(dst) = v<hash>`, one per output), the success event,
+`return`.  No Results copy precedes `Wait`, and none sits in a defer (a defer
+doing anything but its one event is an `unknown` mark). -/
+theorem results_copy_after_wait_check :
+    ["flow/flow.go.tmpl", "modifier/flow.go.tmpl"].all (fun f =>
+      after "Wait" (rootOf f) ==
+        [m "Error", m "return", mg ["range .Outputs"] "ResultsCopy", m "Success", m "return"] &&
+      count "ResultsCopy" (before "Wait" (rootOf f)) == 0 &&
+      !(rootOf f).any isUnknownMark) = true := by
+  decide
+
+/-- **C07.** `Wait` is called in the header of the `if` whose block is the
+error path. -/
+theorem wait_stmts_known :
+    waitStmts =
+      [ ("flow/flow.go.tmpl", "if err := sched.Wait(ctx); err != nil"),
+        ("modifier/flow.go.tmpl", "if err := sched.Wait(ctx); err != nil"),
+        ("parallel/parallel.go.tmpl", "if err := sched.Wait(ctx); err != nil") ] := by
+  decide
+
+/-! #### M5 - the TaskSkipped sweep runs before the Done event (C18) -/
+
+/-- **C18.** The defers of the root templates are, in registration order, the
+Done event and then the TaskSkipped sweep, both unconditional and both
+registered before `Wait` (whose error path returns): deferred calls run in
+reverse order, so every task that did not run is reported skipped before the
+flow / parallel is reported done.  No other defer exists. -/
+theorem root_defers_order :
+    ["flow/flow.go.tmpl", "parallel/parallel.go.tmpl"].all (fun f =>
+      (before "Wait" (rootOf f)).filter (fun x => hasPrefix x.name "defer:" || isUnknownMark x) ==
+        [m "defer:Done", m "defer:Skipped"] &&
+      (after "Wait" (rootOf f)).all (fun x => !hasPrefix x.name "defer:" && !isUnknownMark x)) = true := by
+  decide
+
+/-! #### M6, M7 - slice / map element jobs (C10) -/
+
+/-- **C10.** Every use of a loop variable (`idx`, `val`, `key`) inside the
+element closure of `parallel/slice.go.tmpl` / `map.go.tmpl` (includes of the
+`call...` templates followed) is covered by an `x := x` copy made in the loop
+body before the closure is created, under template conditions that are a
+prefix of the use's: whenever the use is emitted, so is the copy.  (`idx` is
+copied and used under `if .HasIndexParameter`.) -/
+theorem loop_vars_copied :
+    loopVarUses.all (fun u => u.2.all (fun x =>
+      loopVarCopies.any (fun c => c.1 == u.1 &&
+        c.2.any (fun y => y.name == x.name && y.guards.isPrefixOf x.guards)))) = true := by
+  decide
+
+/-- **C10.** The copies and the uses, exactly. -/
+theorem loop_vars_known :
+    loopVarCopies =
+      [ ("parallel/map.go.tmpl", [m "key", m "val"]),
+        ("parallel/slice.go.tmpl", [mg ["if .HasIndexParameter"] "idx", m "val"]) ] ∧
+    loopVarUses =
+      [ ("parallel/map.go.tmpl", [m "key", m "val"]),
+        ("parallel/slice.go.tmpl",
+          [ mg ["if .HasIndexParameter"] "idx", mg ["if .HasIndexParameter"] "val",
+            mg ["unless .HasIndexParameter"] "val" ]) ] := by
+  decide
+
+/-- **C10.** The End job of a slice / map has a Dependencies field, and its
+value is the variable the scheduled element jobs are collected into. -/
+theorem end_job_depends_on_elements :
+    endJobDeps.all (fun d =>
+      d.2 != "none" && !hasPrefix d.2 "unknown" &&
+      elemJobCollect.any (fun c => c.1 == d.1 && hasSub c.2 (d.2 ++ "[idx] =") ||
+                                   c.1 == d.1 && hasSub c.2 (d.2 ++ " = append(" ++ d.2 ++ ","))) = true := by
+  decide
+
+/-- **C10.** ... exactly: one End job per template; the element jobs are
+collected under the same condition the End job exists under (`if .SliceEndFn` /
+`with .SliceEndFn`). -/
+theorem end_job_deps_known :
+    endJobDeps =
+      [ ("parallel/map.go.tmpl", "{{$t}}Jobs"), ("parallel/slice.go.tmpl", "{{$t}}Jobs") ] ∧
+    elemJobCollect =
+      [ ("parallel/map.go.tmpl", "[if .MapEndFn] {{$t}}Jobs = append({{$t}}Jobs,"),
+        ("parallel/slice.go.tmpl", "[if .SliceEndFn] {{$t}}Jobs[idx] =") ] := by
+  decide
+
 end Tie
